@@ -71,6 +71,9 @@ func (e *jsonEncoder) Encode(s core.Sample) error {
 
 func (e *jsonEncoder) Flush() error {
 	err := e.Stream.Flush()
-	_ = e.buf.Flush()
+	if bufErr := e.buf.Flush(); err == nil {
+		// the stream writes into the buffer: the error of the real write shows up here
+		err = bufErr
+	}
 	return err
 }
